@@ -40,7 +40,8 @@ pub fn multi_sets(tier: Tier) -> Vec<MultiSet> {
         for extra in [format!("{0}{1}{0}", s.v, s.c), format!("{0}{0}{1}", s.v, s.c), format!("{0}{1}{1}", s.v, s.c), format!("{0}-{0}{1}", s.v, s.c), format!("{0}{1} {0}", s.v, s.c), format!("{1}{0}{1}{0}", s.v, s.c)] {
             menu.push(extra);
         }
-        if tier == Tier::Thorough {
+        if tier == Tier::Thorough && l == L::None {
+            // the full T<=3(F1) menu (86 titles, 6.4e5 stores) once; the other languages keep the 27-title menu
             menu = all_strings(&f1, 0, 3);
             menu.push(format!("{1}{0}{1}{0}", s.v, s.c));
         }
